@@ -44,8 +44,20 @@ def scan_function(fn, module_names):
             for h in getattr(st_, "handlers", []) or []:
                 _walk(h.body, path + ((id(st_), "handler%d" % id(h)),))
     _walk(fn.body, ())
-    assigns = sorted([n for n in ast.walk(fn) if isinstance(n, ast.Assign) and len(n.targets) == 1 and isinstance(n.targets[0], ast.Name)],
-                     key=lambda x: x.lineno)
+    class _LoopBind:      # `for x in <objects>`: x is bound to each element in turn (an alias of whatever the elements are rooted in)
+        def __init__(self, node, value):
+            self.targets, self.value, self.lineno, self.node = [node.target], value, node.lineno, node
+    _binds = [n for n in ast.walk(fn) if isinstance(n, ast.Assign) and len(n.targets) == 1 and isinstance(n.targets[0], ast.Name)]
+    for n in ast.walk(fn):
+        if isinstance(n, ast.For) and isinstance(n.target, ast.Name):
+            elts = n.iter.elts if isinstance(n.iter, (ast.Tuple, ast.List)) else [n.iter]
+            for e in elts:
+                if isinstance(e, (ast.Name, ast.Attribute, ast.Subscript)):
+                    lb = _LoopBind(n, e)
+                    block_path[id(lb)] = block_path.get(id(n), ())
+                    _binds.append(lb)
+                    break
+    assigns = sorted(_binds, key=lambda x: x.lineno)
 
     def bindings_before(line):
         """Replay the simple name bindings that precede `line` (source order; loops are not iterated): which local names may still refer to a
